@@ -134,6 +134,19 @@ static void op_c12_cmd(Exec& x, const Json& op, int)
 				// directories created on the way to a restored file
 				if (!ok && kv.second == "added" && after.at(p).type == 'd') {
 					for (auto& f : fixed_files) if (starts_with(f, p + "/")) ok = true;
+					// ... also when the fix was interrupted before it could report the file (the half written file is removed
+					// again, the directory stays): the directory is part of the recorded tree
+					if (!ok) {
+						std::vector<LoadedContent> lcs = load_contents(x.sb);
+						const LoadedContent* l = first_good(lcs);
+						if (l) {
+							auto under = [&](uint32_t mi, const std::string& sub) { const DiskCfg* d = x.sb.disk(l->c.maps[mi].name); return d && starts_with(d->top + "/" + sub, p + "/"); };
+							for (auto& f : l->c.files) if (under(f.map_idx, f.sub)) ok = true;
+							for (auto& f : l->c.links) if (under(f.map_idx, f.sub)) ok = true;
+							for (auto& f : l->c.dirs) if (under(f.map_idx, f.sub) || (x.sb.disk(l->c.maps[f.map_idx].name) && x.sb.disk(l->c.maps[f.map_idx].name)->top + "/" + f.sub == p)) ok = true;
+							if (ok) x.probe("c12.ancestor_dir_left_by_interrupted_fix");
+						}
+					}
 				}
 				// a file renamed to .unrecoverable
 				if (!ok && ends_with(p, ".unrecoverable") && fixed_files.count(p.substr(0, p.size() - 14))) ok = true;
